@@ -166,6 +166,7 @@ Definition do_prev (st : state) (ca : cache) : state * cache * bytes * stat :=
   end.
 Definition do_named (t : bytes) (st : state) (ca : cache) : state * cache * bytes * stat :=
   if MaxLevel + 1 <=? len (s_path st) then (st, ca, t, SErr EGen None)
+  else if bytes_eqb (where_sym st) t then (st, ca, t, SErr EGen None)
   else match st_down st t with
        | Ok st' => (st', cache_push ca, t, SOk)
        | Err e => (st, ca, t, SErr e None)
@@ -421,6 +422,7 @@ Proof.
   - (* named node *)
     rewrite (apply_named _ _ _ E), E. unfold do_named, st_down.
     destruct (MaxLevel + 1 <=? len (s_path st)) eqn:E1; [intros H; inversion H|].
+    destruct (bytes_eqb (where_sym st) t) eqn:E0; [intros H; inversion H|].
     destruct (MaxLevel <? len (s_path st)) eqn:E2; [intros H; inversion H|].
     rewrite (nav_code_not_up _ _ (sym_not_single t _ E)), (nav_spec_named _ _ E).
     unfold pos_of at 1. cbn [fst].
@@ -452,6 +454,7 @@ Proof.
   - rewrite apply_same. intros H Hr. inversion H. congruence.
   - rewrite (apply_named _ _ _ E). unfold do_named, st_down.
     destruct (MaxLevel + 1 <=? len (s_path st)); [intros H _; inversion H; auto|].
+    destruct (bytes_eqb (where_sym st) t); [intros H _; inversion H; auto|].
     destruct (MaxLevel <? len (s_path st)); [intros H _; inversion H; auto|].
     destruct (s_path st) as [|a l]; [intros H Hr; inversion H; congruence|].
     destruct (bytes_eqb (last (a :: l) []) t); intros H Hr; inversion H; auto. congruence.
@@ -499,6 +502,7 @@ Lemma apply_named_ok_depth t st ca st' ca' sym :
 Proof.
   intros E. rewrite (apply_named _ _ _ E). unfold do_named, st_down.
   destruct (MaxLevel + 1 <=? len (s_path st)) eqn:E1; [intros H; inversion H|].
+  destruct (bytes_eqb (where_sym st) t) eqn:E0; [intros H; inversion H|].
   destruct (MaxLevel <? len (s_path st)) eqn:E2; [intros H; inversion H|].
   destruct (s_path st) as [|a l] eqn:Ep; [intros _; split; [lia|left; reflexivity]|].
   destruct (bytes_eqb (last (a :: l) []) t) eqn:E3; intros H; inversion H.
@@ -605,38 +609,38 @@ Proof.
   intros E Hd. rewrite (apply_named _ _ _ E). unfold do_named.
   destruct (MaxLevel + 1 <=? len (s_path st)) eqn:E1; [reflexivity|lia].
 Qed.
+Lemma fail_same_node t st ca :
+  valid_sym_b t = true -> len (s_path st) <= MaxLevel -> where_sym st = t ->
+  apply_target t st ca = (st, ca, t, SErr EGen None).
+Proof.
+  intros E Hd Hw. rewrite (apply_named _ _ _ E). unfold do_named.
+  destruct (MaxLevel + 1 <=? len (s_path st)) eqn:E1; [reflexivity|].
+  rewrite Hw, bytes_eqb_refl. reflexivity.
+Qed.
 Lemma next_never_fails st ca :
   s_path st <> [] ->
   apply_target t_next st ca = (set_path_idx st (s_path st) (w16 (s_idx st + 1)), ca, where_sym st, SOk).
 Proof. intros Hp. rewrite apply_next. unfold do_next, st_next. destruct (s_path st); [contradiction|reflexivity]. Qed.
 
 (* ---- panics ------------------------------------------------------------------------ *)
-Lemma apply_panic_iff t st ca :
-  is_spanic (snd (apply_target t st ca)) = true <->
-  valid_sym_b t = true /\ s_path st <> [] /\ len (s_path st) <= MaxLevel /\ last (s_path st) [] = t.
+Lemma apply_never_panics t st ca : is_spanic (snd (apply_target t st ca)) = false.
 Proof.
   destruct (target_cases t) as [E|[E|[E|[E|[E|[E|E]]]]]]; try subst t.
-  - rewrite (apply_invalid _ _ _ E). cbn [snd is_spanic]. split; [discriminate|].
-    intros [Hs _]. assert (valid_target_b t = true) by (apply valid_target_char; left; exact Hs). congruence.
-  - rewrite apply_up. unfold do_up, st_up. split; [|intros [Hs _]; vm_compute in Hs; discriminate].
-    destruct (s_path st); [discriminate|]. pose proof (pop_never_panics ca) as Hn.
-    destruct (cache_pop ca); cbn [snd is_spanic]; try discriminate.
-  - rewrite apply_next. unfold do_next, st_next. split; [|intros [Hs _]; vm_compute in Hs; discriminate].
-    destruct (s_path st); discriminate.
-  - rewrite apply_prev. unfold do_prev, st_previous. split; [|intros [Hs _]; vm_compute in Hs; discriminate].
-    destruct (s_path st); [discriminate|]. destruct (s_idx st =? 0); discriminate.
-  - rewrite apply_top, rewind_status. split; [discriminate|intros [Hs _]; vm_compute in Hs; discriminate].
-  - rewrite apply_same. split; [discriminate|intros [Hs _]; vm_compute in Hs; discriminate].
-  - rewrite (apply_named _ _ _ E). unfold do_named, st_down. split.
-    + destruct (MaxLevel + 1 <=? len (s_path st)) eqn:E1; [discriminate|].
-      destruct (MaxLevel <? len (s_path st)) eqn:E2; [lia|].
-      destruct (s_path st) as [|a l] eqn:Ep; [discriminate|].
-      destruct (bytes_eqb (last (a :: l) []) t) eqn:E3; [|discriminate]. intros _.
-      apply bytes_eqb_eq in E3. repeat split; try assumption; try discriminate; try lia.
-    + intros (_ & Hp & Hd & Hl).
-      destruct (MaxLevel + 1 <=? len (s_path st)) eqn:E1; [lia|].
-      destruct (MaxLevel <? len (s_path st)) eqn:E2; [lia|].
-      destruct (s_path st) as [|a l] eqn:Ep; [contradiction|]. rewrite Hl, bytes_eqb_refl. reflexivity.
+  - rewrite (apply_invalid _ _ _ E). reflexivity.
+  - rewrite apply_up. unfold do_up, st_up.
+    destruct (s_path st); [reflexivity|]. pose proof (pop_never_panics ca) as Hn.
+    destruct (cache_pop ca); cbn [snd is_spanic]; try reflexivity. cbn in Hn. discriminate.
+  - rewrite apply_next. unfold do_next, st_next. destruct (s_path st); reflexivity.
+  - rewrite apply_prev. unfold do_prev, st_previous.
+    destruct (s_path st); [reflexivity|]. destruct (s_idx st =? 0); reflexivity.
+  - rewrite apply_top, rewind_status. reflexivity.
+  - rewrite apply_same. reflexivity.
+  - rewrite (apply_named _ _ _ E). unfold do_named, st_down.
+    destruct (MaxLevel + 1 <=? len (s_path st)) eqn:E1; [reflexivity|].
+    destruct (bytes_eqb (where_sym st) t) eqn:E0; [reflexivity|].
+    destruct (MaxLevel <? len (s_path st)) eqn:E2; [lia|].
+    unfold where_sym in E0.
+    destruct (s_path st) as [|a l] eqn:Ep; [reflexivity|]. rewrite E0. reflexivity.
 Qed.
 
 (* ---- histories ---------------------------------------------------------------------- *)
@@ -717,6 +721,9 @@ Lemma failures_exact_lemma st ca :
   (* depth limit *)
   /\ (forall t, valid_sym_b t = true -> MaxLevel + 1 <= len (s_path st) ->
       apply_target t st ca = (st, ca, t, SErr EGen None))
+  (* a move to the node the session is already at is refused *)
+  /\ (forall t, valid_sym_b t = true -> where_sym st = t ->
+      apply_target t st ca = (st, ca, t, SErr EGen None))
   (* ">" never fails once there is a node; the index wraps at 2^16 *)
   /\ (s_path st <> [] ->
       apply_target t_next st ca = (set_path_idx st (s_path st) (w16 (s_idx st + 1)), ca, where_sym st, SOk)).
@@ -727,7 +734,11 @@ Proof.
   split; [intros Hp; split; [apply fail_up_empty; exact Hp|apply fail_lateral_empty; exact Hp]|].
   split; [intros e Hp; destruct (apply_up_at_entry st ca e Hp Hl) as (ca' & H1 & H2 & _); exists ca'; auto|].
   split; [intros t; apply apply_invalid|].
-  split; [intros t; apply fail_depth|apply next_never_fails].
+  split; [intros t; apply fail_depth|].
+  split; [|apply next_never_fails].
+  intros t E Hw. destruct (MaxLevel + 1 <=? len (s_path st)) eqn:E1.
+  - apply fail_depth; [exact E|lia].
+  - apply fail_same_node; [exact E|lia|exact Hw].
 Qed.
 
 Lemma regex_pinned_lemma :
